@@ -328,7 +328,7 @@ def finding_matches(f, prop, err):
 
 def err_props(err):
     """properties an error is attributed to"""
-    ps = set(err['tags']) if err['tags'] else set(err['props'])
+    ps = set(err['tags']) if err['tags'] else (set(err['props']) - {'C05'})   # C05 is about panics only
     if err['panic_kind']:
         ps.add('C05')
         if not err['tags']:
